@@ -47,7 +47,7 @@ inline PathsD to_d(const Paths64& pp, double div) {
 inline PathD to_d1(const Path64& p, double div) { PathD q; for (auto& pt : p) q.emplace_back((double)pt.x / div, (double)pt.y / div); return q; }
 
 // ------------------------------------------------------------------ generation
-struct GenLimits { int maxexp_bool = 29, maxexp_other = 29; int force_exp_bool = 0; };
+struct GenLimits { int maxexp_bool = 29, maxexp_other = 29; int force_exp_bool = 0; bool force_lattice = false; };
 
 inline int64_t pick_R(Rng& r, int maxexp) {
   int e = r.irange(2, maxexp);
@@ -83,6 +83,15 @@ inline Case gen_op(Rng& r, int op, const GenLimits& lim) {
     int maxe = boolean ? std::min(lim.maxexp_bool, 52) : std::min(lim.maxexp_other, 40);
     R = pick_R(r, maxe);
   }
+  // boolean families, a quarter of the cases: degenerate rectilinear walks on a small lattice (coincident edges, touching
+  // corners, self-overlap) - the inputs on which the sweep's horizontal joins, split lists and owner search do real work
+  gen::RectScene rs; bool lattice = false;
+  if (boolean && !isD && (lim.force_lattice || (R >= 64 && r.chance(0.25)))) {
+    rs = gen::rectilinear_scene(r, 8, 2); lattice = true;
+    const int64_t sc = (int64_t)1 << r.irange(0, 5);
+    gen::scale_paths(rs.subj, sc, 0, 0); gen::scale_paths(rs.clip, sc, 0, 0);
+    R = 8 * sc * 7;    // everything else of this case (open paths, rectangle) lives on the same scale
+  }
   c.seti("R", R); c.seti("prec", prec);
   c.seti("ct", r.irange(0, 4)); c.seti("fr", r.irange(0, 3)); c.seti("pc", r.coin()); c.seti("rev", r.coin());
   c.seti("jt", r.irange(0, 3)); c.seti("et", r.irange(0, 4));
@@ -94,6 +103,7 @@ inline Case gen_op(Rng& r, int op, const GenLimits& lim) {
   c.p64["S"] = hostile_paths(r, R);
   c.p64["C"] = hostile_paths(r, R);
   c.p64["O"] = r.chance(0.5) ? hostile_paths(r, R, 3) : Paths64();
+  if (lattice) { c.p64["S"] = rs.subj; c.p64["C"] = rs.clip; c.seti("lattice", 1); }
   // rectangle: sometimes degenerate / empty / inverted
   int64_t x0 = r.range(-R, R), x1 = r.range(-R, R), y0 = r.range(-R, R), y1 = r.range(-R, R);
   if (r.chance(0.8)) { if (x0 > x1) std::swap(x0, x1); if (y0 > y1) std::swap(y0, y1); }
